@@ -194,6 +194,9 @@ impl Property for C03 {
             "a hang is reported only for structured (small) inputs after 60 s in isolation; scale members are never reported as hangs".into(),
         ]
     }
+    fn max_shrink_iters(&self) -> u32 {
+        300
+    }
     fn cases(&self, tier: Tier) -> u64 {
         match tier {
             Tier::Quick => 4000,
